@@ -43,17 +43,22 @@ SigLenVRF         == 146                         \* 65 + 81 byte VRF proof
 \* base fee recurrence (VIP-251 / EIP-1559 with a floor), on the PARENT header only
 \* division by a small constant: one pass, no quotient search (BigNat!DivInt always takes the general path)
 DivI(a, n)     == IF n < Base THEN DivSmall(a, n) ELSE Div(a, FromInt(n))
-GasTarget(par) == DivI(MulSmall(par.gl, TargetPercent), 100)
+\* The child base fee is a function of three fields of the PARENT header (VIP-251, EIP-1559 with a floor):
+\*   target = gasLimit * 75 div 100            (multiply first: the target of 40_000_050 is 30_000_037, not 30_000_000)
+\*   used = target : unchanged
+\*   used > target : + max(1, baseFee * (used - target) div target div 8)
+\*   used < target : - baseFee * (target - used) div target div 8, but never below the floor
+TargetOf(gl) == DivI(MulSmall(gl, TargetPercent), 100)
+ChildBaseFeeF(gl, gu, bf, floor) ==
+  LET target == TargetOf(gl)
+  IN IF Eq(gu, target) THEN Norm(bf)
+     ELSE IF GT(gu, target)
+          THEN Add(bf, Max(DivI(Div(Mul(bf, Sub(gu, target)), target), ChangeDenominator), One))
+          ELSE Max(Monus(bf, DivI(Div(Mul(bf, Sub(target, gu)), target), ChangeDenominator)), floor)
+ChildBaseFee(gl, gu, bf) == ChildBaseFeeF(gl, gu, bf, InitialBaseFee)
+GasTarget(par) == TargetOf(par.gl)
 
-NextBaseFee(par, cfg) ==
-  IF cfg.gfirst THEN InitialBaseFee
-  ELSE LET target == GasTarget(par)
-       IN IF Eq(par.gu, target) THEN Norm(par.bf)
-          ELSE IF GT(par.gu, target)
-               THEN LET delta == DivI(Div(Mul(par.bf, Sub(par.gu, target)), target), ChangeDenominator)
-                    IN Add(par.bf, Max(delta, One))
-               ELSE LET delta == DivI(Div(Mul(par.bf, Sub(target, par.gu)), target), ChangeDenominator)
-                    IN Max(Monus(par.bf, delta), InitialBaseFee)
+NextBaseFee(par, cfg) == IF cfg.gfirst THEN InitialBaseFee ELSE ChildBaseFee(par.gl, par.gu, par.bf)
 
 \* ---------------------------------------------------------------------------------------------------------------
 \* header rules
